@@ -3,6 +3,7 @@
 
 pub mod build;
 pub mod custom;
+pub mod edit;
 pub mod gen;
 pub mod known;
 pub mod model;
